@@ -60,6 +60,29 @@ Definition encode_opt (f : fmt) (o : Z * list Z) : list Z :=
 
 Definition tlv_encode (f : fmt) (os : list (Z * list Z)) : list Z := flat_map (encode_opt f) os.
 
+(* the cached size of the option area under add_option / remove_option (first option with the code), as the classes keep it:
+   options_size_ += / -= data size + the two header fields *)
+Definition opt_size (f : fmt) (o : Z * list Z) : Z := f_cw f + f_lw f + zlen (snd o).
+
+Fixpoint remove_first (c : Z) (os : list (Z * list Z)) : option (Z * list Z) * list (Z * list Z) :=
+  match os with
+  | [] => (None, [])
+  | o :: r => if fst o =? c then (Some o, r) else let '(x, r') := remove_first c r in (x, o :: r')
+  end.
+
+Inductive hop := HAdd (o : Z * list Z) | HRem (c : Z).
+
+Definition hstep (f : fmt) (st : list (Z * list Z) * Z) (h : hop) : list (Z * list Z) * Z :=
+  match h with
+  | HAdd o => (fst st ++ [o], snd st + opt_size f o)
+  | HRem c => match remove_first c (fst st) with
+              | (Some o, r) => (r, snd st - opt_size f o)
+              | (None, _) => st
+              end
+  end.
+
+Definition hrun (f : fmt) (hs : list hop) : list (Z * list Z) * Z := fold_left (hstep f) hs ([], 0).
+
 Definition no_special (c : Z) : bool := false.
 Definition dhcp_special (c : Z) : bool := (c =? 0) || (c =? 255).
 
@@ -74,11 +97,20 @@ Definition fmt_of (n : Z) : option fmt :=
   else if n =? 3 then Some fmt_icmpv6 else if n =? 4 then Some fmt_pppoe else None.
 
 (* script:  dec <fmt> x<region>          -> 0 [[code xdata] ...] | -<exception>
-            enc <fmt> [[code xdata] ...] -> x<region> *)
+            enc <fmt> [[code xdata] ...] -> x<region>
+            hist <fmt> [[0 code xdata] | [1 code] ...] -> <cached size> x<region>   (add / remove-first history) *)
 Fixpoint opts_of_toks (l : list tok) : option (list (Z * list Z)) :=
   match l with
   | [] => Some []
   | TL [TN c; TB d] :: r => match opts_of_toks r with Some os => Some ((c, d) :: os) | None => None end
+  | _ => None
+  end.
+
+Fixpoint hops_of_toks (l : list tok) : option (list hop) :=
+  match l with
+  | [] => Some []
+  | TL [TN 0; TN c; TB d] :: r => match hops_of_toks r with Some hs => Some (HAdd (c, d) :: hs) | None => None end
+  | TL [TN 1; TN c] :: r => match hops_of_toks r with Some hs => Some (HRem c :: hs) | None => None end
   | _ => None
   end.
 
@@ -96,6 +128,11 @@ Definition tlv_step (st : unit) (op : Z) (args : list tok) : unit * list tok :=
   | 1, [TN n; TL l] =>
       (st, match fmt_of n, opts_of_toks l with
            | Some f, Some os => [TB (tlv_encode f os)]
+           | _, _ => [TN (-3)]
+           end)
+  | 2, [TN n; TL l] =>
+      (st, match fmt_of n, hops_of_toks l with
+           | Some f, Some hs => let r := hrun f hs in [TN (snd r); TB (tlv_encode f (fst r))]
            | _, _ => [TN (-3)]
            end)
   | _, _ => (st, [TN (-3)])
